@@ -507,6 +507,10 @@ struct Context<'input> {
     after_text: Vec<Cow<'input, str>>,
     parent_id: NodeId,
     tag_name: TagNameSpan<'input>,
+    /// Number of open elements at the start of the entity that is being expanded.
+    ///
+    /// Elements opened outside of an entity cannot be closed from inside of it.
+    entity_depth_floor: usize,
     loop_detector: LoopDetector,
     doc: Document<'input>,
 }
@@ -632,6 +636,7 @@ fn parse(text: &str, opt: ParsingOptions) -> Result<Document> {
         after_text: Vec::with_capacity(1),
         parent_id: NodeId::new(0),
         tag_name: TagNameSpan::new_null(),
+        entity_depth_floor: 0,
         loop_detector: LoopDetector::default(),
         doc,
     };
@@ -849,6 +854,15 @@ fn process_element<'input>(
             ctx.awaiting_subtree.push(new_element_id);
         }
         tokenizer::ElementEnd::Close(prefix, local) => {
+            // May occur in XML like this:
+            // <!DOCTYPE test [ <!ENTITY p '<b/></p>'> ]>
+            // <p>&p;
+            if ctx.parent_prefixes.len() <= ctx.entity_depth_floor {
+                return Err(Error::UnexpectedEntityCloseTag(
+                    ctx.doc.text_pos_at(token_range.start),
+                ));
+            }
+
             let parent_node = &mut ctx.doc.nodes[ctx.parent_id.get_usize()];
             // should never panic as we start with the single prefix of the
             // root node and always push another one when changing the parent
@@ -1037,9 +1051,16 @@ fn process_text<'input>(
 
                 let mut stream = Stream::from_substr(ctx.doc.text, fragment.range());
                 let prev_tag_name = ctx.tag_name;
+                let prev_depth_floor = ctx.entity_depth_floor;
                 ctx.tag_name = TagNameSpan::new_null();
+                ctx.entity_depth_floor = ctx.parent_prefixes.len();
                 tokenizer::parse_content(&mut stream, ctx)?;
+                // All elements opened inside an entity must be closed inside it.
+                if ctx.parent_prefixes.len() != ctx.entity_depth_floor {
+                    return Err(Error::UnexpectedEndOfStream);
+                }
                 ctx.tag_name = prev_tag_name;
+                ctx.entity_depth_floor = prev_depth_floor;
                 text_buffer.clear();
 
                 ctx.loop_detector.dec_depth();
